@@ -432,10 +432,14 @@ int reb_simulation_remove_particle(struct reb_simulation* const r, int index, in
 		    ri_trace->current_Ks[i*new_N+j] = ri_trace->current_Ks[old_i*old_N+old_j];
                 }
             }
-            if (encounter_index<ri_trace->encounter_N_active){
-                ri_trace->encounter_N_active--;
+            if (encounter_index>=0){
+                // Only a particle which is listed in the encounter map is counted there. During a full
+                // pericenter step the map holds flags, not indices, and the counters are not in use.
+                if (encounter_index<ri_trace->encounter_N_active){
+                    ri_trace->encounter_N_active--;
+                }
+                ri_trace->encounter_N--;
             }
-            ri_trace->encounter_N--;
         }
     }
 
